@@ -922,7 +922,7 @@ def extra_coverage(cases, impl, model, spec):
             "exploration_only_cases": len(expl),
             "exploration_note": "explore.conn / explore.server / explore.file / explore.date / explore.urls are a TEST of the unmodelled rest (live "
                                 "handle_connection and a live server with the default extensions + kvarn-extensions, CORS, CSP, nonce, vary rules on three "
-                                "headers, files, templates, stream_body, a query-parsing and a body-reading handler, a rate-limited host): their 'model' is "
+                                "headers, files, templates, stream_body, a query-parsing and a body-reading handler, a compressible page that is never cached, a rate-limited host): their 'model' is "
                                 "the constant 'ends cleanly'",
             "panics_observed": sum(1 for c in cases if c.id in impl and c.meta.get("kind") != "live-accounting" and extra_oracle(c, impl[c.id])),
             "not_executed_ids": [{"id": c.id, "component": c.comp, "kind": c.meta.get("kind"), "missing": ("implementation" if c.id not in impl else "model")}
@@ -961,7 +961,12 @@ RULE = ("No PANIC outcome anywhere (oracle independent of the models), and the m
         "range.serve (Range values: extreme numbers 0..10^40 around 2^32, 2^63, 2^64, "
         "words over the value alphabet, mutations; both profiles) and stream.window (stream_body over loopback: announced length, the bytes really sent — the chunk loop runs to its end on "
         "files of up to 200000 bytes with windows around the 64 KiB buffer boundaries and beyond the file —, the framing of the next response); "
-        "neg.list_header (Accept-Encoding / Accept-Language words and random values); ims.decide (If-Modified-Since through the REAL hit arm of handle_cache on a warmed cache: 200 / 304 vs. "
+        "neg.list_header (Accept-Encoding / Accept-Language words and random values, and members weighted with ~70 texts around f32::from_str: nan / inf / infinity in any case and sign, "
+        "signed zeros, 1e400, 1e-400, .5, 1., +1, hex floats, 300 digits, the binary32 rounding boundaries of 0 and 1, malformed ones); c02.ae (a well-formed GET with a weighted accept-encoding "
+        "list, sent twice on one loopback connection — the second after the first answer arrived, so that it meets the response cache and the memo cells — to a handler page that is cached, "
+        "one that is never cached, a file, the built-in 404 page of a host without an errors directory, and a 12-byte file under the compression floor: status and content-encoding of both "
+        "answers vs. Negotiate.clone_preferred; bounded-exhaustive: every pair of 13 core weight texts on gzip and br, each beside an unweighted member in both orders; identity / * / all "
+        "three codings under every weight text; random lists; a request that is not answered is a failing input of its own); ims.decide (If-Modified-Since through the REAL hit arm of handle_cache on a warmed cache: 200 / 304 vs. "
         "Model/Ims.v; one field at a time away from a valid date, random fields, calendar corners, the ends of the time crate's range); "
         "cors.check (Origin, C13's generator); hosts.lookup (Host, C15's generator); pathsan.direct (targets over {/ . % 2 e f a %2e %2f %ff}); "
         "query.parse / query.iter / pathquery (query strings over {a b = & % 2 %26 %3d e-acute +}, every next/next_back script up to length 4, "
@@ -970,7 +975,9 @@ RULE = ("No PANIC outcome anywhere (oracle independent of the models), and the m
         "template files and page bodies bounded-exhaustively over {$[ a b ] LF CRLF \\ SP} up to 4 / 5 tokens, random compositions). "
         "PLUS EXPLORATION (a test, not a proof; the 'model' is 'ends cleanly'): explore.conn — the special heads, mutated valid requests (all header kinds above, "
         "pipelined, with random TCP segmentation), every header the core / a vary rule / an extension reads with values of 0..2 bytes that are not text or not UTF-8, several requests to a "
-        "rate-limited host (429, drop) — over loopback to the real kvarn::handle_connection on hosts with Extensions::new() + kvarn_extensions::mount_all + CORS "
+        "rate-limited host (429, drop), weighted accept-encoding / accept-language lists (the weight texts above, odd parameter syntax, doubled headers) on every kind of page with HEAD / POST / Range / "
+        "If-Modified-Since, three requests per connection, and accept-language lists of 21..200 members with NaN / infinite weights on the page whose vary callback ranks the languages by weight "
+        "(the callback of kvarn's documentation) — over loopback to the real kvarn::handle_connection on hosts with Extensions::new() + kvarn_extensions::mount_all + CORS "
         "rules + vary rules + handlers + files + templates + stream_body; a counting panic hook and the connection task's JoinHandle::is_panic must stay clean and the "
         "task must end after the client closes; explore.server — the same bytes against a real RunConfig::execute server: shutdown::Manager::get_connecions() must return to its idle value; "
         "explore.file — generated first lines ('!> ' + extension names + arguments) and template files (bounded-exhaustive over {$[ a ] LF CRLF \\ SP}) served through the real Present extensions; "
@@ -988,6 +995,13 @@ ASSUMPTIONS = [
     "bodies fit in memory (length < 2^64), the hypothesis of range_never_panics (page_fits)",
     "c02.path: an Accept-Encoding value that names identity or * (it may refuse the identity encoding: 406 from clone_preferred, decided by C06) is outside "
     "request_path's page-per-encoding-class abstraction and is not compared (a panic is never out of domain: the no-panic oracle still applies)",
+    "c02.ae: the pages are text/html (compressible), the server's preferred coding is zstd with the fallback order zstd, br, gzip (CompressionOptions::default, all three "
+    "features built in); the accept-encoding value is one a header line carries unchanged (no control bytes, no optional whitespace at its ends — else out of domain); only status and "
+    "content-encoding are compared (the bodies and their decoding are C06's subject); the two requests of a case are written one after the other's answer — what a server does with a "
+    "second request that arrives in the same segment as the first head is not observed here",
+    "weight_order_variant_refuted is about code that does NOT exist in kvarn (sort_weights: an insertion sort, what slice::sort_by is for up to 20 elements, with the comparator "
+    "b.partial_cmp(a).unwrap()); it documents why no client-controlled float may be ordered that way. The consistency check inside core::slice::sort (the panic of the documented vary "
+    "callback, repaired by dc5aa45) is not modelled: that defect is covered by the live exploration only (kind conn-lang-weights and its corpus input)",
     "stream.window: whether seeking a file to an offset in [2^31, 2^63) succeeds depends on the file system; those starts are out of domain "
     "(the model's seek fails exactly beyond i64::MAX); stream_body_never_panics: every read returns at most the 64 KiB buffer and file offsets stay "
     "below 2^63 (what the kernel guarantees)",
@@ -1003,10 +1017,11 @@ TRUSTED = ["modelled here (Model/Panics.v): utils/src/parse.rs query, Query::{in
            "(repaired code, commit 55bc7f7), src/comprash.rs PathQuery, src/extensions.rs stream_body (window arithmetic and the chunk loop); "
            "Model/Ims.v: the If-Modified-Since test of handle_cache incl. the time crate's parser for HTTP_DATE; Model/UrlCrawl.v: url_crawl::LinkIter "
            "(repaired code, commit 4e78a7d) and its two filters; Model/Templates.v: kvarn-extensions' extract_templates (repaired code, commit 176c67e) and "
-           "handle_template",
+           "handle_template; ae_answer (the status / content-encoding clone_preferred's reply is sent with, incl. the 'identity' label error::default gives the 406 page) on top of "
+           "Negotiate.clone_preferred, compared live by c02.ae",
            "borrowed models (tied by their own properties and re-run here): Http1Read.v, Range.v, RangeConn.v, PathSan.v, Negotiate.v, Cors.v, Hosts.v, "
            "PresentLine.v, Limiter.v, Nonce.v",
-           "harness/src/c02.rs, c02conn.rs (loopback client, counting panic hook, real server on a locked port, fixture tree), c07.rs (scripted reader), c09.rs, c06.rs, c13.rs, c15.rs, c01.rs, c16.rs",
+           "harness/src/c02.rs, c02conn.rs (loopback client, counting panic hook, real server on a locked port, fixture tree, the framing of the two answers of c02.ae by content-length), c07.rs (scripted reader), c09.rs, c06.rs, c13.rs, c15.rs, c01.rs, c16.rs",
            "the ORDER in which request_path composes the stages is a hand transcription of handle_connection / handle_cache / SendKind::send, COMPARED "
            "with the real handle_connection by component c02.path on a minimal collection (class of the answer); the page, the cache state and the limiter "
            "history are parameters of the theorem, instantiated there by a 10-byte page, no cache, limiter off"]
@@ -1017,11 +1032,16 @@ LEVEL_TEXT = ("Machine-checked Coq theorems: every modelled parser / decision fu
               "request_path, in the code's order (reader -> host choice -> request limiter -> sanitize path / range -> CORS gate incl. preflight -> cache key -> file path -> "
               "query parsing -> negotiation -> cache -> range -> send), never panics for any head, schedule, host collection, limiter configuration and history, page and cache state. "
               "The If-Modified-Since test is modelled with the time crate's parser: no header value panics it, it answers 304 exactly for a date not older than creation - 1 s, and the "
-              "rewrite that does its arithmetic on the client's date is refuted (year 9999). The models are byte-faithful "
+              "rewrite that does its arithmetic on the client's date is refuted (year 9999). The weights of accept-encoding members go through f32::from_str, which accepts nan / inf / 1e400 / -0: "
+              "for ANY weight parser every page is answered — 406 exactly when identity is refused and nothing else applies, else its own status with identity or a coding the list names "
+              "with a non-zero weight (accept_encoding_always_answered, tied to live connections by component c02.ae) — because the code tests a weight with == 0.0 / != 0.0 / == 1.0 only; a rewrite that "
+              "ORDERS the client's weights with partial_cmp(..).unwrap() panics exactly on lists of two or more members with a NaN (weight_order_variant_refuted). The models are byte-faithful "
               "transcriptions with every slice / index / unwrap / checked arithmetic explicit and are tied to the code on every run by a "
               "differential run in which a panic must be predicted exactly — the composition itself by the class of the answer of the real handle_connection —, plus a "
-              "model-independent no-panic oracle; three defects found on the way are repaired and their old behaviour kept as refuted statements where modelled "
-              "(Query::get_last always panicked; url_crawl::LinkIter on an unclosed quote; kvarn-extensions' template parser on an empty last template). "
+              "model-independent no-panic oracle; four defects found on the way are repaired and their old behaviour kept as refuted statements where modelled "
+              "(Query::get_last always panicked; url_crawl::LinkIter on an unclosed quote; kvarn-extensions' template parser on an empty last template; NOT modelled, found and kept by the live "
+              "exploration only: the vary callback of kvarn's documentation sorted accept-language weights with a comparator that is no total order once a weight is NaN, and slice::sort_by "
+              "panics on it for more than 20 members). "
               "What is NOT modelled (http, moka, tokio, compressors, TLS/h2/h3, vary lookup, CSP, MIME detection, kvarn-extensions' other Present code) is covered by exploration runs against live "
               "connections, a live server (whose connection count must return to idle) and generated file contents only — a test, not a proof.")
 LEVEL_NOTE = ("Partial by construction: panic-freedom is proved for the modelled functions (see coverage.inventory for the table of partial "
